@@ -722,14 +722,23 @@ def stale_session(prog, prefix):
         Metrics.endCollect()
 
 
-def run_session(prog, threshold, prefix, consumable, prereg, consume, reg="file"):
+def plan_all(prog, how):
+    """Registration plan: every trace type on every traced rank."""
+    return [(r, ty, how) for r in prog.traced for ty in trace_types()]
+
+
+def run_session(prog, threshold, prefix, plan, prereg, consume, reg="file"):
+    """plan: [(rank, type, "file" | "consumable" | "both"), ...] -- the traces this session requests."""
     assert not Metrics.isCollecting()
     res = Session()
-    types = trace_types()
-    keys = [(r, ty) for r in prog.traced for ty in types]
+    if isinstance(plan, bool):
+        plan = plan_all(prog, "both" if plan else "file")
+    cons_keys = [(r, ty) for r, ty, how in plan if how != "file"]
+    file_names = {f"{r}-{ty}.csv" for r, ty, how in plan if how != "consumable"}
+    consumable = bool(cons_keys)
 
     def drain():
-        for key in keys:
+        for key in cons_keys:
             res.consumed.setdefault(key, []).extend(Metrics.consumeTrace(*key))
 
     Metrics.beginCollect(prefix)
@@ -737,13 +746,15 @@ def run_session(prog, threshold, prefix, consumable, prereg, consume, reg="file"
         Metrics.setNumCachedUses(threshold)
         for r, shape in getattr(prog, "assoc", []):
             Metrics.associateShape(r, tuple(shape))
-        for n, (r, ty) in enumerate(keys):
+        for n, (r, ty, how) in enumerate(plan):
             # the file and the consumable form of a trace may be requested in either order
-            cons_first = consumable and (reg == "consumable" or (reg == "mixed" and n % 2 == 1))
+            cons_first = how == "consumable" or (how == "both" and (reg == "consumable" or
+                                                                    (reg == "mixed" and n % 2 == 1)))
             if cons_first:
                 Metrics.trace(r, type_=ty, consumable=True)
-            Metrics.trace(r, type_=ty)
-            if consumable and not cons_first:
+            if how != "consumable":
+                Metrics.trace(r, type_=ty)
+            if how == "both" and not cons_first:
                 Metrics.trace(r, type_=ty, consumable=True)
         for r in prog.order[:prereg]:
             Metrics.registerRank(r)
@@ -761,7 +772,7 @@ def run_session(prog, threshold, prefix, consumable, prereg, consume, reg="file"
             Metrics.endCollect()
     d, base = os.path.split(prefix)
     for fn in sorted(os.listdir(d)):
-        if fn.startswith(base + "-"):
+        if fn.startswith(base + "-") and fn[len(base) + 1:] in file_names:
             with open(os.path.join(d, fn), "rb") as f:
                 res.files[fn[len(base) + 1:]] = f.read()
     return res
@@ -916,12 +927,7 @@ def check_session(prog, ses, cfg, rec, where):
             elif tr.header != header:
                 raise Violation("header", f"trace {name} starts with {tr.header}, expected {header} (loop order "
                                 f"{order}) -- {where}")
-            strict = ty == "iter"
-            for (s0, _, _), (s1, _, _) in zip(tr.rows, tr.rows[1:]):
-                if s1 < s0 or (strict and s1 == s0):
-                    raise Violation("stamp-order", f"trace {name}: stamp {list(s1)} follows {list(s0)} "
-                                    f"({'strictly increasing' if strict else 'non-decreasing'} order required); rows "
-                                    f"{tr.brief()} -- {where}")
+            _check_stamp_order(name, tr, ty == "iter", where)
             traces[(r, ty)] = tr
 
     # -- the stamp columns of the enclosing loop ranks are the stamp of the enclosing body (the
@@ -1042,6 +1048,87 @@ def check_session(prog, ses, cfg, rec, where):
     return insts, traces
 
 
+def _check_stamp_order(name, tr, strict, where):
+    for (s0, _, _), (s1, _, _) in zip(tr.rows, tr.rows[1:]):
+        if s1 < s0 or (strict and s1 == s0):
+            raise Violation("stamp-order", f"trace {name}: stamp {list(s1)} follows {list(s0)} "
+                            f"({'strictly increasing' if strict else 'non-decreasing'} order required); rows "
+                            f"{tr.brief()} -- {where}")
+
+
+def subset_plan(prog, traces, sub):
+    """The (rank, type, how) pairs a subset session registers: `picks` index the traces that held rows in
+    the all-registered session (so single-type sessions of traces that matter are common), `extra` names
+    arbitrary pairs."""
+    order = {ty: n for n, ty in enumerate(trace_types())}
+    live = sorted([k for k, t in traces.items() if t.rows], key=lambda k: (prog.traced.index(k[0]), order[k[1]]))
+    if not live:
+        live = [(prog.traced[-1], "iter")]
+    keys = []
+    for k in sub["picks"]:
+        keys.append(live[k % len(live)])
+    for ri, ty in sub.get("extra", []):
+        keys.append((prog.traced[ri % len(prog.traced)], ty))
+    keys = list(dict.fromkeys(keys))
+    hows = {"file": ["file"], "consumable": ["consumable"], "both": ["both"],
+            "mixed": ["consumable", "file", "both"]}[sub["how"]]
+    return [(r, ty, hows[n % len(hows)]) for n, (r, ty) in enumerate(keys)]
+
+
+def check_subset(prog, main, traces, insts, ses, plan, where):
+    """A session that registered only `plan`: every registered trace must hold what the same trace held
+    in the all-registered session -- header, (point, fiber_pos) of every row, and the stamp columns of
+    the loop levels whose stamps the library advances independently of the registered traces (all but
+    the levels of a populate loop: the populate iterator ticks once more per destination row it
+    traces).  Destination rows of an INSERTING populate are excluded (their number and positions depend
+    on whether the write trace is registered; they are only checked for order and completeness in the
+    all-registered session)."""
+    if [e["bodies"] for e in ses.log] != [e["bodies"] for e in main.log]:
+        raise Violation("subset-bodies", f"the loop nest ran other bodies when only {plan} were registered: "
+                        f"{[(e['rank'], e['prefix'], e['bodies']) for e in ses.log]} instead of "
+                        f"{[(e['rank'], e['prefix'], e['bodies']) for e in main.log]} -- {where}")
+    pop_levels = {e["level"] for e in main.log if e["z"] is not None}
+    inserting = {}
+    for i in insts:
+        if i.inserting:
+            for role in i.roles.values():
+                if role.family == "dest":
+                    inserting.setdefault(role.rank, set()).add(tuple(_lin_prefix(prog, i.entry["prefix"])))
+    for r, ty, how in plan:
+        name = f"{r}-{ty}.csv"
+        level = prog.levels[r]
+        data = None
+        if how != "consumable":
+            if name not in ses.files:
+                raise Violation("trace-file-missing", f"no trace file {name} after a session registering {plan} "
+                                f"-- {where}")
+            data = ses.files[name]
+        if how != "file":
+            cons = rows_text(ses.consumed.get((r, ty), []))
+            if data is not None and cons != data:
+                raise Violation("file-vs-consumable", f"trace {name} (session registering {plan}): file {data!r} "
+                                f"differs from the consumable rows {ses.consumed.get((r, ty))} -- {where}")
+            data = cons
+        tr = Trace(name, data, level, where)
+        ref = traces[(r, ty)]
+        _check_stamp_order(name, tr, ty == "iter", where)
+        fam = ty.rsplit("_", 1)[0]
+        skip = inserting.get(r, set()) if fam in ("populate_read", "populate_write") else set()
+        keep = [lv for lv in range(level + 1) if lv not in pop_levels]
+
+        def view(t):
+            return [([st[lv] for lv in keep], list(pt), pos) for st, pt, pos in t.rows if pt[:-1] not in skip]
+
+        if tr.header != ref.header or view(tr) != view(ref):
+            raise Violation("registration-subset",
+                            f"trace {name} requested as {how} in a session that registers only "
+                            f"{[(a, b, c) for a, b, c in plan]} holds header {tr.header}, rows [stamp.., point.., "
+                            f"fiber_pos] {tr.brief()}; with every trace registered the same loop nest gave header "
+                            f"{ref.header}, rows {ref.brief()} (compared: header, point and fiber_pos columns, stamp "
+                            f"columns of levels {keep}; rows of inserting populates at prefixes "
+                            f"{sorted(skip)} excluded) -- {where}")
+
+
 def check_program(make_prog, cfg, rec, where):
     K.reset_metrics()
     root = tempfile.mkdtemp(prefix="vf-c16-", dir=_TMPFS)
@@ -1062,6 +1149,12 @@ def check_program(make_prog, cfg, rec, where):
                         for k in sorted(set(main.files) | set(other.files)) if main.files.get(k) != other.files.get(k)}
                 raise Violation("flush-threshold", f"trace files written with setNumCachedUses({ths[0]}) and ({th}) "
                                 f"differ: {diff} -- {where}")
+        for n, sub in enumerate(cfg.get("subsets", [])):
+            plan = subset_plan(prog, traces, sub)
+            ses = run_session(make_prog(), ths[(n + 1) % len(ths)], prefix, plan, cfg["preregister"],
+                              cfg["consume"], cfg.get("reg", "file"))
+            check_subset(prog, main, traces, insts, ses, plan, where)
+            prog._subset_plans = getattr(prog, "_subset_plans", []) + [plan]
     finally:
         shutil.rmtree(root, ignore_errors=True)
     return prog, main, insts, traces
@@ -1103,6 +1196,14 @@ def classify(rec, prog, ses, insts, traces, prefix_cls=""):
 
 
 @st.composite
+def subset_specs(draw):
+    picks = [draw(st.sampled_from(list(range(12)))) for _ in range(draw(st.sampled_from([1, 1, 2, 3])))]
+    extra = [[draw(st.sampled_from([0, 1, 2, 3])), draw(st.sampled_from(trace_types()))]
+             for _ in range(draw(st.sampled_from([0, 0, 1, 2])))]
+    return {"picks": picks, "extra": extra, "how": draw(st.sampled_from(["file", "consumable", "mixed", "both"]))}
+
+
+@st.composite
 def configs(draw, nranks, noprereg_last=False):
     ths = list(draw(st.permutations(THRESHOLDS)))
     top = nranks - (1 if noprereg_last else 0)
@@ -1110,7 +1211,8 @@ def configs(draw, nranks, noprereg_last=False):
             "preregister": draw(st.sampled_from([0, 0, 0] + list(range(1, top + 1)))),
             "consume": draw(st.sampled_from(["end", "outer"])),
             "stale": draw(st.sampled_from([True, True, False])),
-            "reg": draw(st.sampled_from(["consumable", "file", "mixed"]))}
+            "reg": draw(st.sampled_from(["consumable", "file", "mixed"])),
+            "subsets": [draw(subset_specs()) for _ in range(draw(st.sampled_from([1, 2, 1])))]}
 
 
 @st.composite
@@ -1299,7 +1401,13 @@ def enumerate_small(tier):
     """Finite sub-domain run completely: one operator, no outer loop, shape 3, every placement of
     absent / explicit zero / non-zero elements in both operands."""
     ths = [2, 1000] if tier == "quick" else [2, 3, 5, 1000]
-    cfg = {"thresholds": ths, "preregister": 0, "consume": "end"}
+    # after the all-registered session: one single-trace session per trace that held rows (file form and
+    # consumable-only form alternate)
+    def cfg_for(op):
+        n = 3 if op != "lshift" else 4
+        return {"thresholds": ths, "preregister": 0, "consume": "end",
+                "subsets": [{"picks": [k], "extra": [], "how": ["file", "consumable"][k % 2]} for k in range(n)]}
+
     src = _small_fibers([0, 1])
     for op in (["and", "lshift"] if tier == "quick" else ["and", "lf", "lshift"]):
         for a in src:
@@ -1307,11 +1415,11 @@ def enumerate_small(tier):
                 # destination: absent / explicit zero / -1 (the body adds 1: -1 becomes the default and is removed)
                 for z in _small_fibers([0, -1]):
                     yield {"nest": {"op": op, "shape": 3, "outer": None, "proj": None, "z": z, "z_shared": True,
-                                    "inst": [{"a": a, "plan": [["add", 1]] * 3}]}, "cfg": cfg}
+                                    "inst": [{"a": a, "plan": [["add", 1]] * 3}]}, "cfg": cfg_for(op)}
             else:
                 for b in src:
                     yield {"nest": {"op": op, "shape": 3, "outer": None, "proj": None,
-                                    "inst": [{"a": a, "b": b}]}, "cfg": cfg}
+                                    "inst": [{"a": a, "b": b}]}, "cfg": cfg_for(op)}
 
 
 PARTS = [Part("kernels", kernel_cases(), check_kernel, n_quick=500, n_thorough=5000),
